@@ -18,7 +18,7 @@ import time
 
 sys.path.insert(0, os.path.dirname(os.path.abspath(__file__)))
 import kv
-from dev import load_unit
+from dev import load_unit, verify_unit
 from extract import ExtractError
 
 VERIF = kv.VERIF
@@ -57,16 +57,10 @@ def finding_matches(entry_text, failure):
 
 
 def run_unit(name, tier, probe, log_air):
-    u = load_unit(name, probe=probe)
-    u.assemble()
-    u.write('__probe' if probe else '')
-    ntok = u.erasure_check()
     rlimit = 30 if tier == 'quick' else 60
     if probe:
         rlimit = 8
-    res = kv.run_verus(u.gen_path, flags=u.verus_flags, rlimit=rlimit, log_air=log_air)
-    fails, und = kv.classify(u, res)
-    return u, res, fails, und, ntok
+    return verify_unit(name, probe=probe, rlimit=rlimit, log_air=log_air, suffix='__probe' if probe else '')
 
 
 def main():
@@ -257,13 +251,14 @@ def main():
             if found:
                 again = cfg['replayer'](None, tier)
                 if not again:
-                    undecided.append('bounded native search: a failing input did not reproduce: %s' % json.dumps(found)[:300])
+                    # noise of the bounded search must never decide anything
+                    bounded.append('bounded native search: an observation did not reproduce and was discarded: %s' % json.dumps(found)[:300])
                     found = None
         except Exception as e:
             found = None
             bounded.append('bounded native search failed to run: %r' % (e,))
-        bounded.append('bounded native search of the real crate next to the proof (%s; labelled bounded, never counted as proved)'
-                       % ('found a failing input' if found else 'no failing input'))
+        bounded.append('bounded native search of the real crate next to the proof: %s (%s; labelled bounded, never counted as proved)'
+                       % (getattr(cfg['replayer'], 'what', 'kreplay'), 'found a failing input' if found else 'no failing input'))
         if found:
             rp = os.path.join(VERIF, 'replays', '%s-b0.json' % pid)
             json.dump({'property': pid, 'obligation': ['bounded: native observation on the real crate contradicts the property'
@@ -307,6 +302,8 @@ def main():
             'failed_obligations': [{'labels': f['labels'], 'function': f['fn'], 'message': f['message']} for f in mine],
             'failed_obligations_of_other_properties': len(others),
             'undecided': undecided,
+            'proof_hint_assertions_stripped': [x for info in unit_infos for x in getattr(info['u'], 'stripped_hint_asserts', [])],
+            'proof_hints_dropped': {info['unit']: getattr(info['u'], 'hints_off', {}) for info in unit_infos if getattr(info['u'], 'hints_off', {})},
             'known_findings_reported': [h for _, h in listed],
         },
         'assumptions': cfg.get('assumptions', []) + trusted,
